@@ -1,182 +1,220 @@
 (* C14 — charge is accounted identically as arrays and as positioned clusters.
-   Only statements here; the model is Model/Charge.v (pyxel/data_structure/charge.py as coded),
-   proofs live in Proofs/Charge*.v.  All theorems quantify over ALL operation sequences. *)
-From Coq Require Import ZArith QArith Qround List Bool Lia.
-From PyxelV Require Import Model.Charge Proofs.ChargeLemmas Proofs.ChargeRefine Proofs.ChargeBinning Proofs.ChargeIdeal.
+   Only statements here.  The model is Model/Charge.v (pyxel/data_structure/charge.py as coded, after the
+   repairs of C14-F4a/F4b/F5); proofs live in Proofs/Charge*.v.  All theorems quantify over ALL operation
+   sequences.  They are stated about the state machine built from `src` (Gen_C14.v: the index
+   expressions, the mask, the conversion threshold and the pixel-centre formulas that translator/c14.py
+   read in the source on this run): `C14_source_is_model` re-proves on every run that these say what the
+   fixed model says, and Proofs/ChargeSrc.v transfers every theorem. *)
+From Coq Require Import ZArith QArith Qround List Bool Lia ZifyBool.
+From PyxelV Require Import Model.Charge Proofs.ChargeLemmas Proofs.ChargeRefine Proofs.ChargeIdeal
+  Proofs.ChargeBinning Proofs.ChargeSrc.
+From PyxelGen Require Import Gen_C14.
 Import ListNotations.
 Open Scope Q_scope.
 
 (* ------------------------------------------------------------------------------------------
-   (1) For non-negative array additions and clusters inside the sensitive area, a read after ANY
-   interleaving of AddArray / AddClusters / Read / ReadFrame / Reset returns, pixel by pixel, the sum
-   of everything added since the last Reset (spec_acc: arrays entry-wise, each cluster credited to
-   exactly (floor(v/ph), floor(h/pw))).  Shape-rejected arrays contribute nothing.  Corrupt is
-   unreachable. *)
+   (0) The tie to the source, re-proved against the regenerated expressions: the first subscript of the
+   njit loop is floor(position_ver / pixel_vert_size), the second floor(position_hor / pixel_horz_size);
+   exactly the clusters with 0 <= first < geo.row and 0 <= second < geo.col are handed to the loop; an
+   array entry becomes a cluster iff it is > 0; the cluster of pixel (i, j) is placed at
+   ((i + 1/2) * pixel_vert_size, (j + 1/2) * pixel_horz_size); the loop accumulates (`+=`) the column
+   `number`. *)
+Theorem C14_source_is_model : params_ok src.
+Proof.
+  unfold params_ok, src; cbn [sp_iv sp_ih sp_keep sp_thr sp_cv sp_ch].
+  repeat split; intros; try reflexivity; unfold src_keep; lia.
+Qed.
+Print Assumptions C14_source_is_model.
+
+Theorem C14_source_loop : src_loop_accumulates = true /\ src_value_is_number = true.
+Proof. split; reflexivity. Qed.
+Print Assumptions C14_source_loop.
+
+(* the hypothesis is satisfiable independently of the generated file, and it is not trivially true *)
+Example C14_source_is_model_nonvacuous :
+  params_ok std_params /\
+  ~ params_ok {| sp_iv := sp_iv std_params; sp_ih := sp_ih std_params; sp_keep := fun _ _ _ _ => true;
+                 sp_thr := sp_thr std_params; sp_cv := sp_cv std_params; sp_ch := sp_ch std_params |}.
+Proof.
+  split; [exact std_params_ok|]. intros [_ [_ [K _]]]. specialize (K (-1)%Z 0%Z 1%Z 1%Z). discriminate.
+Qed.
+
+(* ------------------------------------------------------------------------------------------
+   (1) The accumulator.  For non-negative array additions and clusters ANYWHERE (inside the sensitive
+   area, on its borders, at negative positions, beyond the far edges), a read after ANY interleaving of
+   AddArray / AddClusters / Read / ReadFrame / Reset returns an array of the detector's shape (the
+   out-of-bounds outcome of the unchecked loop is unreachable) that equals, pixel by pixel, the sum of
+   everything added since the last Reset (spec_acc: arrays entry-wise, each cluster credited to exactly
+   the pixel (floor(v/ph), floor(h/pw)) when that is a pixel of the array and to nothing otherwise).
+   Shape-rejected arrays contribute nothing.  (This was C14_outside_safe_full, refuted before the repair.) *)
+Definition op_ok_anywhere (o : op) : bool := negb (is_removal o) && op_arrays_nonneg o.
+
 Theorem C14_refines_accumulator :
-  forall g ops, geom_ok g = true -> forallb (op_ok_in g) ops = true ->
-  exists m, read_after g ops = OArr m /\ Shape (g_rows g) (g_cols g) m /\
+  forall g ops, geom_ok g = true -> forallb op_ok_anywhere ops = true ->
+  exists m, read_afterP src g ops = OArr m /\ Shape (g_rows g) (g_cols g) m /\
     forall i j, (i < g_rows g)%nat -> (j < g_cols g)%nat -> mget m i j == spec_acc g ops i j.
-Proof. exact read_refines_accumulator. Qed.
+Proof. intros g ops. rewrite (read_afterP_eq src C14_source_is_model). exact (read_refines_accumulator g ops). Qed.
 Print Assumptions C14_refines_accumulator.
 
+(* ... and with removals: for ALL op sequences the read is the ledger -- additions credited as above, a
+   removal debiting exactly the clusters it takes out of the live table (spec_ledger). *)
+Theorem C14_refines_ledger :
+  forall g ops, geom_ok g = true -> forallb op_arrays_nonneg ops = true ->
+  exists m, read_afterP src g ops = OArr m /\ Shape (g_rows g) (g_cols g) m /\
+    forall i j, (i < g_rows g)%nat -> (j < g_cols g)%nat -> mget m i j == spec_ledger g ops i j.
+Proof. intros g ops. rewrite (read_afterP_eq src C14_source_is_model). exact (read_refines_ledger g ops). Qed.
+Print Assumptions C14_refines_ledger.
+
+Theorem C14_ledger_is_accumulator_without_removals :
+  forall g ops, has_removal ops = false -> forall i j, spec_ledger g ops i j = spec_acc g ops i j.
+Proof. exact ledger_no_removal. Qed.
+Print Assumptions C14_ledger_is_accumulator_without_removals.
+
+(* a reset returns the view to zero whatever came before -- no hypothesis at all *)
 Theorem C14_reset_gives_zero :
-  forall g ops, geom_ok g = true -> forallb (op_ok_in g) ops = true ->
-  exists m, read_after g (ops ++ [Reset]) = OArr m /\ Shape (g_rows g) (g_cols g) m /\
-    forall i j, (i < g_rows g)%nat -> (j < g_cols g)%nat -> mget m i j == 0.
-Proof. exact read_after_reset. Qed.
+  forall g ops, read_afterP src g (ops ++ [Reset]) = OArr (zeros (g_rows g) (g_cols g)).
+Proof. intros g ops. rewrite (read_afterP_eq src C14_source_is_model). exact (read_after_reset g ops). Qed.
 Print Assumptions C14_reset_gives_zero.
 
 Definition g23 : geom := {| g_rows := 2; g_cols := 3; g_ph := 2; g_pw := 4 |}.
 Definition K n v h : cluster := {| c_n := n; c_v := v; c_h := h |}.
 Definition ops_mixed : list op :=
-  [AddArray [[1;0;2];[0;3;0]]; Read; AddClusters [K 5 1 4; K 7 2 (23#2)]; Read; AddArray [[0;0;1];[1;0;0]];
-   ReadFrame; Read; Reset; AddClusters [K 1 0 0]; AddArray [[1;1;1];[1;1;1]]].
-(* non-vacuity: a mixed sequence meets the hypotheses, and its read is the expected sum *)
+  [AddArray [[1;0;2];[0;3;0]]; Read; AddClusters [K 5 1 4; K 7 2 (23#2); K 9 (-1) 1; K 9 4 0]; Read;
+   AddArray [[0;0;1];[1;0;0]]; ReadFrame; Read; Reset; AddClusters [K 1 0 0]; AddArray [[1;1;1];[1;1;1]]].
+(* non-vacuity: a mixed sequence with clusters outside meets the hypotheses; its reads are the expected sums *)
 Example C14_refines_accumulator_nonvacuous :
-  geom_ok g23 = true /\ forallb (op_ok_in g23) ops_mixed = true /\
-  read_after g23 ops_mixed = OArr [[2;1;1];[1;1;1]] /\
-  read_after g23 (firstn 7 ops_mixed) = OArr [[1;5;3];[1;3;7]].
+  geom_ok g23 = true /\ forallb op_ok_anywhere ops_mixed = true /\
+  read_afterP src g23 ops_mixed = OArr [[2;1;1];[1;1;1]] /\
+  read_afterP src g23 (firstn 7 ops_mixed) = OArr [[1;5;3];[1;3;7]].
 Proof. vm_compute. repeat split. Qed.
 
 (* ------------------------------------------------------------------------------------------
    (2) Binning.  A position belongs to pixel k exactly when it lies in [k*s, (k+1)*s) (the lower
-   border belongs to the pixel, the upper one to the next); a single cluster inside the area is read
-   back in exactly that pixel and nowhere else; pixel centres round-trip. *)
+   border belongs to the pixel, the upper one to the next) -- stated on the regenerated index
+   expressions; ANY single cluster is read back in exactly the pixel of its two indices if that is a
+   pixel of the array and nowhere else; pixel centres round-trip. *)
 Theorem C14_binning_pixel_area :
-  forall s p k, 0 < s -> (inject_Z k * s <= p /\ p < (inject_Z k + 1) * s) <-> Qfloor (p / s) = k.
-Proof. exact pix_bounds. Qed.
+  forall pv ph sv sh k, 0 < sv -> 0 < sh ->
+    ((inject_Z k * sv <= pv /\ pv < (inject_Z k + 1) * sv) <-> src_iv pv ph sv sh = k) /\
+    ((inject_Z k * sh <= ph /\ ph < (inject_Z k + 1) * sh) <-> src_ih pv ph sv sh = k).
+Proof.
+  intros pv ph sv sh k Hv Hh. destruct C14_source_is_model as [Hiv [Hih _]]. cbn [sp_iv sp_ih src] in Hiv, Hih.
+  rewrite Hiv, Hih. split; apply pix_bounds; auto.
+Qed.
 Print Assumptions C14_binning_pixel_area.
 
 Theorem C14_binning :
-  forall g c, geom_ok g = true -> inside g c = true ->
-  exists m, read_after g [AddClusters [c]] = OArr m /\ Shape (g_rows g) (g_cols g) m /\
+  forall g c, geom_ok g = true ->
+  exists m, read_afterP src g [AddClusters [c]] = OArr m /\ Shape (g_rows g) (g_cols g) m /\
     forall i j, (i < g_rows g)%nat -> (j < g_cols g)%nat ->
       mget m i j == if (Qfloor (c_v c / g_ph g) =? Z.of_nat i)%Z && (Qfloor (c_h c / g_pw g) =? Z.of_nat j)%Z
                     then c_n c else 0.
-Proof. exact binning_single. Qed.
+Proof. intros g c. rewrite (read_afterP_eq src C14_source_is_model). exact (binning_single g c). Qed.
 Print Assumptions C14_binning.
 
 Theorem C14_binning_centre_roundtrip :
-  forall s k, 0 < s -> Qfloor (centre s k / s) = Z.of_nat k.
-Proof. exact pix_centre. Qed.
+  forall sv sh k, 0 < sv -> 0 < sh ->
+    src_iv (src_cv sv sh k) (src_ch sv sh k) sv sh = Z.of_nat k /\
+    src_ih (src_cv sv sh k) (src_ch sv sh k) sv sh = Z.of_nat k.
+Proof.
+  intros sv sh k Hv Hh. destruct C14_source_is_model as [Hiv [Hih [_ [_ [Hcv Hch]]]]].
+  cbn [sp_iv sp_ih sp_cv sp_ch src] in *. rewrite Hiv, Hih, Hcv, Hch. split; apply pix_centre; auto.
+Qed.
 Print Assumptions C14_binning_centre_roundtrip.
 
 (* array -> clusters at centres -> array *)
 Theorem C14_binning_array_roundtrip :
   forall g a cs, geom_ok g = true -> shape_ok (g_rows g) (g_cols g) a = true -> nonneg_matrix a = true ->
-  forallb (inside g) cs = true ->
-  exists m, read_after g [AddArray a; AddClusters cs] = OArr m /\ Shape (g_rows g) (g_cols g) m /\
+  exists m, read_afterP src g [AddArray a; AddClusters cs] = OArr m /\ Shape (g_rows g) (g_cols g) m /\
     forall i j, (i < g_rows g)%nat -> (j < g_cols g)%nat -> mget m i j == mget a i j + credit (hit_exact g) cs i j.
-Proof. exact centres_roundtrip. Qed.
+Proof. intros g a cs. rewrite (read_afterP_eq src C14_source_is_model). exact (centres_roundtrip g a cs). Qed.
 Print Assumptions C14_binning_array_roundtrip.
 
 Example C14_binning_nonvacuous :
   inside g23 (K 5 2 (23#2)) = true /\ inside g23 (K 5 (39#10) 0) = true /\
-  read_after g23 [AddClusters [K 5 2 (23#2)]] = OArr [[0;0;0];[0;0;5]] /\     (* on the row border 2 = 1*ph *)
-  read_after g23 [AddClusters [K 5 (39#10) 0]] = OArr [[0;0;0];[5;0;0]] /\
-  inside g23 (K 5 4 0) = false.                                                 (* the far edge is outside *)
+  read_afterP src g23 [AddClusters [K 5 2 (23#2)]] = OArr [[0;0;0];[0;0;5]] /\     (* on the row border 2 = 1*ph *)
+  read_afterP src g23 [AddClusters [K 5 (39#10) 0]] = OArr [[0;0;0];[5;0;0]] /\
+  inside g23 (K 5 4 0) = false /\                                                    (* the far edge is outside *)
+  read_afterP src g23 [AddClusters [K 5 4 0]] = OArr [[0;0;0];[0;0;0]] /\
+  src_iv (-1) 1 2 4 = (-1)%Z.
 Proof. vm_compute. repeat split. Qed.
 
 (* ------------------------------------------------------------------------------------------
-   (3) Clusters outside the sensitive area.  FULL statement: whatever the cluster positions, a read
-   returns the accumulator (outside clusters credited nowhere) and memory is never corrupted. *)
-Definition op_ok_anywhere (o : op) : bool := negb (is_removal o) && op_arrays_nonneg o.
+   (3) Clusters outside the sensitive area (C14-F4a / C14-F4b, repaired): whatever the operations --
+   removals included, non-negative or negative arrays, clusters anywhere -- a read is an array of the
+   detector's shape: the unchecked loop never indexes outside the buffer.  And clusters that all lie
+   outside [0, rows*ph) x [0, cols*pw) change no pixel, after any history. *)
+Theorem C14_outside_never_corrupts :
+  forall g ops, exists m, read_afterP src g ops = OArr m /\ Shape (g_rows g) (g_cols g) m.
+Proof. intros g ops. rewrite (read_afterP_eq src C14_source_is_model). exact (never_corrupt g ops). Qed.
+Print Assumptions C14_outside_never_corrupts.
 
-Definition C14_outside_safe_full : Prop :=
-  forall g ops, geom_ok g = true -> forallb op_ok_anywhere ops = true ->
-  exists m, read_after g ops = OArr m /\ Shape (g_rows g) (g_cols g) m /\
-    forall i j, (i < g_rows g)%nat -> (j < g_cols g)%nat -> mget m i j == spec_acc g ops i j.
+Theorem C14_outside_safe :
+  forall g ops cs, geom_ok g = true -> forallb op_arrays_nonneg ops = true ->
+  forallb (fun c => negb (inside g c)) cs = true ->
+  obs_equiv g (read_afterP src g (ops ++ [AddClusters cs])) (read_afterP src g ops).
+Proof. intros g ops cs. rewrite !(read_afterP_eq src C14_source_is_model). exact (outside_adds_nothing g ops cs). Qed.
+Print Assumptions C14_outside_safe.
 
-(* REFUTED on the code as it is: (a) a negative position is credited to the opposite edge ... *)
-Theorem C14_outside_safe_refuted : ~ C14_outside_safe_full.
+Example C14_outside_safe_nonvacuous :
+  forallb (fun c => negb (inside g23 c)) [K 5 (-1) 1; K 1 1 (-12); K 7 4 0; K 7 1 12; K 7 (-5) 100] = true /\
+  read_afterP src g23 [AddArray [[1;0;2];[0;3;0]]; AddClusters [K 5 (-1) 1; K 1 1 (-12); K 7 4 0; K 7 1 12; K 7 (-5) 100]]
+    = OArr [[1;0;2];[0;3;0]].
+Proof. vm_compute. repeat split. Qed.
+
+(* ------------------------------------------------------------------------------------------
+   (4) Removals and the cached array (C14-F5, repaired).  For ALL sequences -- no hypothesis --
+   (a) a read is an observation: inserting one anywhere never changes a later read; (b) the container
+   reads exactly like the ideal cache-free container (charge moved between the representations,
+   removed clusters gone for good) and shows the same `.frame`; (c) a removal debits exactly the
+   clusters it takes out of the frame; (d) the ideal container is the accumulator on removal-free
+   sequences (formerly only tested). *)
+Theorem C14_read_pure :
+  forall g ops1 ops2, obs_equiv g (read_afterP src g (ops1 ++ Read :: ops2)) (read_afterP src g (ops1 ++ ops2)).
+Proof. intros g ops1 ops2. rewrite !(read_afterP_eq src C14_source_is_model). exact (read_pure g ops1 ops2). Qed.
+Print Assumptions C14_read_pure.
+
+Theorem C14_remove_then_add :
+  forall g ops, obs_equiv g (read_afterP src g ops) (ideal_read_after g ops) /\
+                frame_afterP src g ops = st_frame (ideal_exec g (init g) ops).
 Proof.
-  intro H. destruct (H g23 [AddClusters [K 5 (-1) 1]] eq_refl eq_refl) as [m [E [_ G]]].
-  vm_compute in E. injection E as <-.
-  specialize (G 1%nat 0%nat). vm_compute in G.
-  assert (A : (1 < 2)%nat) by lia. assert (B : (0 < 3)%nat) by lia. specialize (G A B). discriminate.
+  intros g ops. rewrite (read_afterP_eq src C14_source_is_model), (frame_afterP_eq src C14_source_is_model).
+  split; [exact (read_sim_ideal g ops)|exact (frame_sim_ideal g ops)].
 Qed.
-Print Assumptions C14_outside_safe_refuted.
+Print Assumptions C14_remove_then_add.
 
-(* ... and (b) a position at or beyond the far edge is written out of bounds. *)
-Theorem C14_outside_corrupt_reachable :
-  exists g ops, geom_ok g = true /\ forallb op_ok_anywhere ops = true /\ read_after g ops = OCorrupt.
-Proof. exists g23, [AddClusters [K 5 4 0]]. vm_compute. repeat split. Qed.
-Print Assumptions C14_outside_corrupt_reachable.
+Theorem C14_removal_subtracts :
+  forall g ops o ids, geom_ok g = true -> forallb op_arrays_nonneg ops = true -> removal_ids o = Some ids ->
+  exists m m', read_afterP src g ops = OArr m /\ read_afterP src g (ops ++ [o]) = OArr m' /\
+    Shape (g_rows g) (g_cols g) m /\ Shape (g_rows g) (g_cols g) m' /\
+    forall i j, (i < g_rows g)%nat -> (j < g_cols g)%nat ->
+      mget m' i j == mget m i j - credit (hit_exact g) (fcl (selected ids (frame_afterP src g ops))) i j.
+Proof.
+  intros g ops o ids. rewrite !(read_afterP_eq src C14_source_is_model), (frame_afterP_eq src C14_source_is_model).
+  exact (removal_subtracts g ops o ids).
+Qed.
+Print Assumptions C14_removal_subtracts.
 
-(* PARTIAL (what is true for all sequences): if every cluster index lies within one detector length
-   of the array (index in [-n, n)), nothing is corrupted and the read is the accumulator with
-   numba's wraparound (index k < 0 credited to n + k). *)
-Theorem C14_outside_safe_partial :
-  forall g ops, geom_ok g = true -> forallb (op_ok g) ops = true ->
-  exists m, read_after g ops = OArr m /\ Shape (g_rows g) (g_cols g) m /\
-    forall i j, (i < g_rows g)%nat -> (j < g_cols g)%nat -> mget m i j == wrap_acc g ops i j.
-Proof. exact read_refines_wrap. Qed.
-Print Assumptions C14_outside_safe_partial.
-
-Example C14_outside_safe_partial_nonvacuous :
-  forallb (op_ok g23) [AddClusters [K 5 (-1) 1; K 1 1 (-12)]] = true /\
-  forallb (op_ok_in g23) [AddClusters [K 5 (-1) 1]] = false /\
-  read_after g23 [AddClusters [K 5 (-1) 1; K 1 1 (-12)]] = OArr [[1;0;0];[5;0;0]].
-Proof. vm_compute. repeat split. Qed.
-
-(* ------------------------------------------------------------------------------------------
-   (4) Removals and the cached array (DESIGN 7, F5).  FULL statements: (a) a read is an observation --
-   inserting one anywhere never changes a later read; (b) the container behaves like the ideal
-   cache-free container (charge moved between representations, removed clusters gone for good). *)
-(* op_ok_rm g o (Proofs/ChargeIdeal.v) := op_arrays_nonneg o && op_clusters (inside g) o : removals allowed *)
-
-Definition C14_read_pure_full : Prop :=
-  forall g ops1 ops2, geom_ok g = true -> forallb (op_ok_rm g) (ops1 ++ ops2) = true ->
-  obs_equiv g (read_after g (ops1 ++ Read :: ops2)) (read_after g (ops1 ++ ops2)).
-
-Definition C14_remove_then_add_full : Prop :=
-  forall g ops, geom_ok g = true -> forallb (op_ok_rm g) ops = true ->
-  obs_equiv g (read_after g ops) (ideal_read_after g ops).
+Theorem C14_ideal_is_accumulator :
+  forall g ops, geom_ok g = true -> forallb op_ok_anywhere ops = true ->
+  exists n, ideal_read_after g ops = OArr n /\ Shape (g_rows g) (g_cols g) n /\
+    forall i j, (i < g_rows g)%nat -> (j < g_cols g)%nat -> mget n i j == spec_acc g ops i j.
+Proof. exact ideal_is_accumulator. Qed.
+Print Assumptions C14_ideal_is_accumulator.
 
 Definition g11 : geom := {| g_rows := 1; g_cols := 1; g_ph := 1; g_pw := 1 |}.
-
-(* REFUTED: AddClusters; Read; RemoveAll  reads 5 where  AddClusters; RemoveAll  reads 0 *)
-Theorem C14_read_pure_refuted : ~ C14_read_pure_full.
-Proof.
-  intro H. specialize (H g11 [AddClusters [K 5 (1#2) (1#2)]] [RemoveAll] eq_refl eq_refl).
-  vm_compute in H. destruct H as [_ [_ G]].
-  assert (A : (0 < 1)%nat) by lia. specialize (G 0%nat 0%nat A A). discriminate.
-Qed.
-Print Assumptions C14_read_pure_refuted.
-
-(* REFUTED: Read; RemoveAll; AddArray resurrects the removed charge (reads 6, should be 1) *)
-Theorem C14_remove_then_add_refuted : ~ C14_remove_then_add_full.
-Proof.
-  intro H. specialize (H g11 [AddClusters [K 5 (1#2) (1#2)]; Read; RemoveAll; AddArray [[1]]] eq_refl eq_refl).
-  vm_compute in H. destruct H as [_ [_ G]].
-  assert (A : (0 < 1)%nat) by lia. specialize (G 0%nat 0%nat A A). discriminate.
-Qed.
-Print Assumptions C14_remove_then_add_refuted.
-
-(* PARTIAL: without removals reads are pure, for all interleavings *)
-Theorem C14_read_pure_partial :
-  forall g ops1 ops2, geom_ok g = true -> forallb (op_ok g) (ops1 ++ ops2) = true ->
-  obs_equiv g (read_after g (ops1 ++ Read :: ops2)) (read_after g (ops1 ++ ops2)).
-Proof. exact read_pure_partial. Qed.
-Print Assumptions C14_read_pure_partial.
-
-(* PARTIAL: for ALL sequences, removals included, in which no removal turns a non-empty frame into an
-   empty one (removal_safe, a decidable condition on the sequence), the container as coded reads
-   exactly like the ideal cache-free container.  Missing for the full statement: exactly the
-   sequences in which a removal empties the frame (the refutation above). *)
-Theorem C14_remove_then_add_partial :
-  forall g ops, geom_ok g = true -> forallb (op_ok_rm g) ops = true -> removal_safe g (init g) ops = true ->
-  obs_equiv g (read_after g ops) (ideal_read_after g ops).
-Proof. exact read_sim_ideal. Qed.
-Print Assumptions C14_remove_then_add_partial.
-
-Definition ops_partial_removal : list op :=
+Definition ops_removal : list op :=
   [AddArray [[1;0;2];[0;3;0]]; AddClusters [K 5 1 4; K 7 2 (23#2)]; Read; Remove [0%Z; 3%Z]; Read;
    AddArray [[0;0;0];[4;0;0]]; Remove [7%Z]].
-Example C14_remove_then_add_partial_nonvacuous :
-  forallb (op_ok_rm g23) ops_partial_removal = true /\ removal_safe g23 (init g23) ops_partial_removal = true /\
-  has_removal ops_partial_removal = true /\
-  read_after g23 ops_partial_removal = OArr [[0;0;2];[4;3;7]] /\
-  ideal_read_after g23 ops_partial_removal = OArr [[0;0;2];[4;3;7]] /\
-  removal_safe g11 (init g11) [AddClusters [K 5 (1#2) (1#2)]; Read; RemoveAll; AddArray [[1]]] = false.
+(* non-vacuity: the former counterexamples now read what the ideal container reads *)
+Example C14_removal_nonvacuous :
+  has_removal ops_removal = true /\
+  read_afterP src g23 ops_removal = OArr [[0;0;2];[4;3;7]] /\
+  ideal_read_after g23 ops_removal = OArr [[0;0;2];[4;3;7]] /\
+  frame_eqb (frame_afterP src g23 (firstn 4 ops_removal)) [(1%Z, K 2 1 10); (2%Z, K 3 3 6); (4%Z, K 7 2 (23#2))] = true /\
+  read_afterP src g11 [AddClusters [K 5 (1#2) (1#2)]; Read; RemoveAll] = OArr [[0]] /\
+  read_afterP src g11 [AddClusters [K 5 (1#2) (1#2)]; Read; RemoveAll; AddArray [[1]]] = OArr [[1]] /\
+  read_afterP src g11 [AddArray [[2]]; AddClusters [K 5 (1#2) (1#2)]; Remove [1%Z]] = OArr [[2]] /\
+  read_afterP src g11 [AddArray [[2]]; RemoveAll] = OArr [[2]] /\
+  removal_ids (Remove [0%Z; 3%Z]) = Some [0%Z; 3%Z].
 Proof. vm_compute. repeat split. Qed.
